@@ -452,6 +452,7 @@ def _nost(spec, tier):
     """the same scenarios against the library built WITHOUT symmetric transfer (Loop / Here paths instead of Next):
     the recorded executions must be behaviours of the same specification; the model itself is checked once"""
     spec.flavour = "fiber_nost"
+    spec.drift_boost_execs = 0  # the deepened exploration after drift runs once, on the default configuration
     spec.mc_cfgs = []
     spec.paths_cfg = None
     if tier == "quick":
